@@ -161,7 +161,13 @@ def enumerate_mutations(path):
     muts.append(("add_table",))
     muts.append(("add_table", "AaaVerifExtraTable"))
     muts.append(("add_table", "zzzVerifExtraTable"))
+    # names resembling SQLite's own statistics tables (which CREATE TABLE may not use)
+    muts.append(("add_table", "SqliteXStat1"))
+    muts.append(("add_table", "sqlite3_stat1"))
+    muts.append(("add_table", "Sqlite_Sequence2"))
+    muts.append(("analyze",))
     muts.append(("add_view",))
+    muts.append(("add_view", "SqliteXStat4"))
     muts.append(("add_view", "AaaVerifExtraView"))
     muts.append(("add_view", "zzzVerifExtraView"))
     for t in sig["tables"]:
@@ -268,6 +274,17 @@ def apply_mutation(path, m):
             t = m[1]
             col = before["tables"][t][0][0]
             con.execute('CREATE INDEX verif_extra_index_%s ON "%s" ("%s")' % (t, t, col))
+        elif kind == "analyze":
+            # what ANALYZE / PRAGMA optimize by any other software leaves behind: the table sqlite_stat1
+            con.execute("ANALYZE")
+            con.commit()
+            n = con.execute("SELECT COUNT(*) FROM sqlite_master WHERE name = 'sqlite_stat1'").fetchone()[0]
+            if not n:
+                return False, "no structural change"
+            if signature(con) != before:
+                return False, "change not confined to the target"
+            ok = con.execute("PRAGMA integrity_check").fetchall()
+            return (True, "ok") if ok == [("ok",)] else (False, "integrity_check")
         else:
             return False, "unknown"
         con.commit()
